@@ -25,7 +25,7 @@ PROPS = {
     'C15': {'units': ['shape', 'openin'], 'kani': [], 'only': {'openin': r'per_matrix_shape_and_grouping|compute_single_reduced_opening|height_group'}},
     'C13': {'units': ['sym', 'symx'], 'kani': []},
     'C09': {'units': ['prep', 'mult'], 'kani': []},
-    'C08': {'units': ['mmcs', 'hash', 'mbind'], 'kani': []},
+    'C08': {'units': ['mmcs', 'hash', 'mbind', 'vbatch'], 'kani': []},
     'C16': {'units': ['meta', 'vrfy'], 'kani': []},
     'C11': {'units': ['air', 'alu', 'run19'], 'kani': [], 'only': {'run19': r'execute_alu_op'}},
 }
@@ -179,7 +179,10 @@ META['C08'] = {
     'text': 'Deductive proof, for every cap height, digest width and boolean index-bit assignment, that select_cap_entry returns componentwise the cap entry at the little-endian index of the '
             'remaining index bits (invariant over the halving layers: layer k entry m is cap[m*2^k + low-k-bits index]), with every index in bounds; and, for every number of extension elements, '
             'rate and width, that add_hash_extension_elements returns targets whose values are the native PaddingFreeSponge digest of the row (invariant over the chunks: the table row state equals '
-            'the native sponge state after i chunks; the permutation row reads exactly the native absorbed state: chunk values, previous rate outputs on a partial non-first chunk, chained capacity).',
+            'the native sponge state after i chunks; the permutation row reads exactly the native absorbed state: chunk values, previous rate outputs on a partial non-first chunk, chained capacity). '
+            'Unit vbatch: the whole of verify_batch_circuit asserts exactly the native batch-opening relation: level digest i = sponge of the concatenation, in the STABLE descending-height order, of [coefficients | salt] '
+            'of the matrices consumed at level i (padded height 2^(maxlog-i)), the path recomputed with index_bits[..path_depth], compared with the cap entry at the little-endian index of index_bits[path_depth..]; '
+            'mismatched batch sizes are rejected.',
     'note': 'Soundness side (unit mbind + one obligation in hash): the values add_mmcs_verify and the leaf hasher hand to a permutation row must be tied to that row by the table; '
             'the table facts are spec predicates transcribed from the AIR/executor text and the obligations FAIL on the unchanged tree: KNOWN FINDINGS C08-leaf-hash-capacity-free, '
             'C08-merkle-row-given-limbs-unbound, C08-merkle-direction-bit-unbound (forged proofs in findings/C08_mmcs_unbound_test.rs). '
